@@ -21,7 +21,7 @@ from engine.stubs import kernel as KS  # noqa: E402
 
 PROPERTY = "C03"
 CASE = {}
-KERNELS = ["gunicorn.arbiter:Arbiter.run", "gunicorn.arbiter:Arbiter.manage_workers",
+KERNELS = ["gunicorn.workers.base:Worker.init_process", "gunicorn.arbiter:Arbiter.run", "gunicorn.arbiter:Arbiter.manage_workers",
            "gunicorn.arbiter:Arbiter.spawn_workers", "gunicorn.arbiter:Arbiter.spawn_worker",
            "gunicorn.arbiter:Arbiter.kill_worker", "gunicorn.arbiter:Arbiter.kill_workers",
            "gunicorn.arbiter:Arbiter.reap_workers", "gunicorn.arbiter:Arbiter.murder_workers",
@@ -38,29 +38,22 @@ OUTSIDE = [">3 workers", "tapes longer than the bound", "real fork/exec/kill", "
 
 
 def mk_arbiter(K, num, timeout=2, ages=()):
-    arb = object.__new__(A.Arbiter)
+    """A real Arbiter built by its own __init__/setup() from a stub application (so that attributes a change adds to
+    __init__ exist), then given an empty, instance-level process table."""
     hook = lambda *a, **k: None  # noqa: E731
-    arb.cfg = SimpleNamespace(pre_fork=hook, nworkers_changed=hook, worker_exit=hook, child_exit=hook,
-                              on_exit=hook, reuse_port=False, graceful_timeout=3, daemon=False, workers=num,
-                              pidfile=None, env={}, proc_name="g")
-    arb.log = KS.NullLog()
+    cfg = SimpleNamespace(pre_fork=hook, nworkers_changed=hook, worker_exit=hook, child_exit=hook,
+                          on_exit=hook, reuse_port=False, graceful_timeout=3, daemon=False, workers=num,
+                          pidfile=None, env={}, env_orig={}, proc_name="g", logger_class=lambda c: KS.NullLog(),
+                          worker_class=KS.worker_class(K), address=[], timeout=timeout, settings={}, preload_app=False)
+    app = SimpleNamespace(cfg=cfg, wsgi=lambda: None)
+    arb = A.Arbiter(app)
     arb.WORKERS = {}
     arb.LISTENERS = []
     arb.SIG_QUEUE = []
     arb.PIPE = [90, 91]
-    arb._num_workers = num
     arb._last_logged_active_worker_count = None
-    arb.worker_class = KS.worker_class(K)
     arb.worker_age = 0
     arb.pid = 1
-    arb.app = None
-    arb.timeout = timeout
-    arb.reexec_pid = 0
-    arb.master_pid = 0
-    arb.master_name = "Master"
-    arb.proc_name = "g"
-    arb.pidfile = None
-    arb.systemd = False
     arb.start = lambda: None
     K.arb = arb
     for a in ages:
@@ -310,6 +303,86 @@ def converge_twin_early(n0: int, sigs: List[int], tape: List[int], early: List[i
     return not ok
 
 
+# ---- 3b. a worker that cannot boot exits with the distinct status (child side of spawn_worker) --------------------------
+class _Stop(BaseException):
+    pass
+
+
+def boot_fail(point: int, kind: int) -> bool:
+    """
+    pre: 0 <= point <= 5 and 0 <= kind <= 1
+    post: __return__
+    """
+    import gunicorn.workers.base as WB
+    from gunicorn.errors import AppImportError
+    point, kind = pick(point, 0, 5), pick(kind, 0, 1)
+    K = KS.Kernel()
+    arb = mk_arbiter(K, 1)
+    order = ["post_fork", "set_owner", "load_wsgi", "post_worker_init", "run", "none"]
+    where = order[point]
+
+    def boom(name):
+        def f(*a, **k):
+            if where == name:
+                raise (AppImportError("cannot import app") if kind == 1 else RuntimeError("boom in " + name))
+        return f
+
+    class App:
+        def wsgi(self_):
+            boom("load_wsgi")()
+            return lambda e, s: []
+    arb.app = App()
+    hook = lambda *a, **k: None  # noqa: E731
+    arb.cfg.uid = arb.cfg.gid = 0
+    arb.cfg.initgroups = False
+    arb.cfg.env = {}
+    arb.cfg.reload = False
+    arb.cfg.post_fork = boom("post_fork")
+    arb.cfg.post_worker_init = boom("post_worker_init")
+    arb.cfg.max_requests = 0
+    arb.cfg.max_requests_jitter = 0
+
+    class TWorker(WB.Worker):
+        def run(self_):
+            boom("run")()
+            raise _Stop()
+    arb.worker_class = TWorker
+    undo = KS.install(A, K)
+    A.os.fork = lambda: 0
+    saved = (WB.WorkerTmp, WB.util, WB.os, WB.signal)
+    WB.WorkerTmp = lambda cfg: SimpleNamespace(close=lambda: None, fileno=lambda: 9, notify=lambda: None)
+    WB.util = ns("WB.util", set_owner_process=boom("set_owner"), seed=lambda: None, set_non_blocking=lambda fd: None,
+                 close_on_exec=lambda fd: None)
+    WB.os = ns("WB.os", pipe=lambda: (90, 91), environ={}, write=lambda fd, d: None)
+    WB.signal = ns("WB.signal", **dict({k: getattr(signal, k) for k in dir(signal) if k.startswith("SIG")},
+                                       signal=lambda s, h: None, siginterrupt=lambda s, f: None,
+                                       set_wakeup_fd=lambda fd: None))
+    saved_print = A.print if hasattr(A, "print") else None
+    A.print = lambda *a, **k: None
+    code = "no-exit"
+    try:
+        try:
+            arb.spawn_worker()
+        except _Stop:
+            code = "running"
+        except SystemExit as e:
+            code = e.code
+    finally:
+        undo()
+        WB.WorkerTmp, WB.util, WB.os, WB.signal = saved
+        if saved_print is None:
+            del A.print
+        else:
+            A.print = saved_print
+    if where == "none":
+        return code == "running"
+    if kind == 1:
+        return code == A.Arbiter.APP_LOAD_ERROR          # the application could not be loaded: status 4, wherever it surfaced
+    if where == "run":
+        return code not in (A.Arbiter.WORKER_BOOT_ERROR, A.Arbiter.APP_LOAD_ERROR, 0, "running")
+    return code == A.Arbiter.WORKER_BOOT_ERROR            # anything that keeps the worker from reaching its loop: status 3
+
+
 # ---- 4. SIG_QUEUE cap -----------------------------------------------------------------------------------------
 def sigqueue(sigs: List[int]) -> bool:
     """
@@ -327,9 +400,12 @@ def sigqueue(sigs: List[int]) -> bool:
     return arb.SIG_QUEUE == list(sigs)[:5]
 
 
-def _conv(n0, sigs, tape, early, st, timeout, quiet, stmax=3):
-    return {"n0": n0, "sigs": sigs, "tape": tape, "early": early, "st": st, "timeout": timeout, "quiet": quiet,
-            "stmax": stmax}
+def _conv(n0, sigs, tape, early, st, timeout, quiet, stmax=3, deaf=False):
+    d = {"n0": n0, "sigs": sigs, "tape": tape, "early": early, "st": st, "timeout": timeout, "quiet": quiet,
+         "stmax": stmax}
+    if deaf:
+        d["deaf"] = True          # every child loses the first SIGTERM sent to it (still booting): the master must re-send
+    return d
 
 
 OBLIGATIONS = [
@@ -342,11 +418,15 @@ OBLIGATIONS = [
     Ob("C03.kill_step", "kill_step", cases=[{"k": k} for k in (1, 2, 3)], timeout=300,
        bound="kill_worker on 1..3 workers in every tracked/untracked x process present/gone combination (never raises, forgets "
              "workers whose process is gone)"),
+    Ob("C03.boot_fail", "boot_fail", timeout=300,
+       bound="child side of spawn_worker with a failure injected at post_fork / set_owner_process / load_wsgi / post_worker_init / "
+             "run / nowhere, ordinary exception or AppImportError: exit status 3 (cannot boot), 4 (application), other (after boot)"),
     Ob("C03.converge", "converge",
        cases={"quick": [_conv(2, 1, 1, 1, 1, 2, 4), _conv(2, 2, 0, 1, 1, 2, 4), _conv(2, 0, 2, 0, 2, 2, 4, 2),
-                        _conv(2, 1, 1, 1, 1, 0, 3)],
+                        _conv(2, 1, 1, 1, 1, 0, 3), _conv(2, 2, 0, 0, 0, 2, 5, deaf=True)],
               "thorough": [_conv(2, 1, 2, 1, 2, 2, 5), _conv(2, 2, 1, 1, 1, 2, 5), _conv(2, 2, 2, 1, 2, 2, 5, 2),
-                           _conv(3, 1, 1, 1, 1, 2, 4), _conv(2, 1, 2, 1, 2, 0, 4), _conv(2, 2, 1, 1, 1, 0, 4)]},
+                           _conv(3, 1, 1, 1, 1, 2, 4), _conv(2, 1, 2, 1, 2, 0, 4), _conv(2, 2, 1, 1, 1, 0, 4),
+                           _conv(3, 3, 1, 0, 1, 2, 6, deaf=True)]},
        timeout={"quick": 600, "thorough": 3000},
        bound="run() loop: initial target <=2, <=1..2 TTIN/TTOU, crash tape <=2 (thorough 3) entries over every "
              "kill/sleep boundary, early-death tape <=1 (2) over fork boundaries, timeout in {0,2}s, then 4-5 quiet loops"),
